@@ -95,6 +95,8 @@ def contracts(repo):
         items.append(sp)
     items.append(canonicalize_spec())
     items.append(resolve_element_spec())
+    from . import C05 as _C05
+    items += [_C05.set_attribute_single_spec(), _C05.get_attribute_single_spec()]      # the attribute services address the same Attribute objects
     return items
 
 
